@@ -24,7 +24,8 @@ REPO = os.environ.get("VERIF_REPO", "/repo")
 OUT = os.path.join(os.path.dirname(os.path.abspath(__file__)), "..", "coq", "Steps.v")
 
 CONSTS = {"SESSION_KEY_LENGTH": ("session_key_length", "u8"), "PROOF_LENGTH": ("proof_length", "u8"),
-          "PUBLIC_KEY_LENGTH": ("public_key_length", "u8"), "LARGE_SAFE_PRIME_LITTLE_ENDIAN": ("n_le", ("arr", "u8"))}
+          "PUBLIC_KEY_LENGTH": ("public_key_length", "u8"), "SERVER_HEADER_LENGTH": ("vanilla_server_header_length", "u8"),
+          "CLIENT_HEADER_LENGTH": ("vanilla_client_header_length", "u8"), "LARGE_SAFE_PRIME_LITTLE_ENDIAN": ("n_le", ("arr", "u8"))}
 CTORS = {"NormalizedStringError::CharacterNotAllowed": "CharacterNotAllowed"}
 STRUCTS_FN = {"NormalizedString": ["s", "length"]}
 ENUMS = {"NormalizedStringError::StringTooLong": "StringTooLong","InvalidPublicKeyError::PublicKeyIsZero": "PublicKeyIsZero",
@@ -59,6 +60,30 @@ TARGETS = [
     dict(name="tbc_decrypt_client_header", file="src/tbc_header/decrypt.rs", fn="decrypt_client_header", kind="method", fields=[("half", "opaque")], helpers=[],
          externs={"self.decrypt": ("ext_raw", "self.half")}, ret="N * N",
          opt_calls={"ClientHeader::from_array": ("tr_vanilla_client_header_from_array", "hdr")}),
+    dict(name="vanilla_read_and_decrypt_server_header", file="src/vanilla_header/decrypt.rs", fn="read_and_decrypt_server_header", kind="method", fields=[("half", "opaque")], helpers=[],
+         io_params={"reader": "reader"}, ext_params=["ext_raw"], ret="hdr",
+         self_calls={"decrypt_server_header": ("tr_vanilla_decrypt_server_header ext_raw", ["self.half"], "hdr")}),
+    dict(name="vanilla_write_encrypted_server_header", file="src/vanilla_header/encrypt.rs", fn="write_encrypted_server_header", kind="method", fields=[("half", "opaque")], helpers=[],
+         io_params={"write": "writer"}, ext_params=["ext_raw"], ret="unit",
+         self_calls={"encrypt_server_header": ("tr_vanilla_encrypt_server_header ext_raw", ["self.half"], ("arr", "u8"))}),
+    dict(name="vanilla_read_and_decrypt_client_header", file="src/vanilla_header/decrypt.rs", fn="read_and_decrypt_client_header", kind="method", fields=[("half", "opaque")], helpers=[],
+         io_params={"reader": "reader"}, ext_params=["ext_raw"], ret="hdr",
+         self_calls={"decrypt_client_header": ("tr_vanilla_decrypt_client_header ext_raw", ["self.half"], "hdr")}),
+    dict(name="vanilla_write_encrypted_client_header", file="src/vanilla_header/encrypt.rs", fn="write_encrypted_client_header", kind="method", fields=[("half", "opaque")], helpers=[],
+         io_params={"write": "writer"}, ext_params=["ext_raw"], ret="unit",
+         self_calls={"encrypt_client_header": ("tr_vanilla_encrypt_client_header ext_raw", ["self.half"], ("arr", "u8"))}),
+    dict(name="tbc_read_and_decrypt_server_header", file="src/tbc_header/decrypt.rs", fn="read_and_decrypt_server_header", kind="method", fields=[("half", "opaque")], helpers=[],
+         io_params={"reader": "reader"}, ext_params=["ext_raw"], ret="hdr",
+         self_calls={"decrypt_server_header": ("tr_tbc_decrypt_server_header ext_raw", ["self.half"], "hdr")}),
+    dict(name="tbc_write_encrypted_server_header", file="src/tbc_header/encrypt.rs", fn="write_encrypted_server_header", kind="method", fields=[("half", "opaque")], helpers=[],
+         io_params={"write": "writer"}, ext_params=["ext_raw"], ret="unit",
+         self_calls={"encrypt_server_header": ("tr_tbc_encrypt_server_header ext_raw", ["self.half"], ("arr", "u8"))}),
+    dict(name="tbc_read_and_decrypt_client_header", file="src/tbc_header/decrypt.rs", fn="read_and_decrypt_client_header", kind="method", fields=[("half", "opaque")], helpers=[],
+         io_params={"reader": "reader"}, ext_params=["ext_raw"], ret="hdr",
+         self_calls={"decrypt_client_header": ("tr_tbc_decrypt_client_header ext_raw", ["self.half"], "hdr")}),
+    dict(name="tbc_write_encrypted_client_header", file="src/tbc_header/encrypt.rs", fn="write_encrypted_client_header", kind="method", fields=[("half", "opaque")], helpers=[],
+         io_params={"write": "writer"}, ext_params=["ext_raw"], ret="unit",
+         self_calls={"encrypt_client_header": ("tr_tbc_encrypt_client_header ext_raw", ["self.half"], ("arr", "u8"))}),
     dict(name="rc4_apply_keystream", file="src/rc4.rs", fn="apply_keystream", kind="method_slice_loop",
          fields=[("state", ("arr", "u8")), ("i", "u8"), ("j", "u8")],
          self_calls={"pseudo_random_generation": ("tr_rc4_prga", ["self.state", "self.i", "self.j"])}),
@@ -222,12 +247,16 @@ def method(t, src):
         if len(blk) != 1 or blk[0][0] != "tail": raise Untranslatable("helper %s is not a single expression" % h)
         helpers[h] = ([x for x in split_params(hs) if x[0] != "self"], blk[0][1])
     env, args, argtys = {}, [], {}
+    io = t.get("io_params", {})
     for name, ty in ps[1:]:
-        pt, mut = param_type(ty)
+        if name in io: pt, mut = io[name], True
+        else: pt, mut = param_type(ty)
         env[name] = ("v_" + name, pt); args.append("v_" + name); argtys["v_" + name] = pt
     for f, ty in t["fields"]:
         env["self." + f] = ("s_" + f, ty)
     consts = dict(CONSTS); consts.update(t.get("consts", {}))
+    if t["file"].startswith("src/tbc_header/"):
+        consts.update({"SERVER_HEADER_LENGTH": ("tbc_server_header_length", "u8"), "CLIENT_HEADER_LENGTH": ("tbc_client_header_length", "u8")})
     g = Gen(env, consts, helpers)
     for h in t.get("free_helpers", []):
         hsrc = src
@@ -238,27 +267,35 @@ def method(t, src):
         g.free_helpers[h] = ([(n_, param_type(ty_)[0]) for n_, ty_ in split_params(hs)], blk_h[0][1])
     g.externs = dict(t.get("externs", {}))
     g.enums = dict(t.get("enums", {})); g.ctor_calls = dict(t.get("ctors", {})); g.opt_calls = dict(t.get("opt_calls", {}))
+    g.self_calls = dict(t.get("self_calls", {}))
     blk = Parser(tokenize(body)).block()
     g.usize_vars = usize_variables(blk)
     fields = ["s_" + f for f, _ in t["fields"]]
     ro = t.get("readonly", False)
+    ionames = ["v_" + n_ for n_ in io]
     def final(tail):
         st = "(" + ", ".join(fields) + ")" if len(fields) > 1 else fields[0]
         if ro:
             if tail is None: raise Untranslatable("read-only method without a result")
             return "Some %s" % tail[0]
-        if tail is None: return "Some (%s, tt)" % st
-        return "Some (%s, %s)" % (st, tail[0])
+        extra = "".join(", " + n_ for n_ in ionames)
+        if tail is None: return "Some (%s, tt%s)" % (st, extra)
+        return "Some (%s, %s%s)" % (st, tail[0], extra)
     text = g.stmts(blk, final)
     def cty(ty): return "list N" if isinstance(ty, tuple) else ("ST" if ty == "opaque" else "N")
     tys = " ".join("(%s : %s)" % ("s_" + f, cty(ty)) for f, ty in t["fields"])
     if any(ty == "opaque" for _, ty in t["fields"]):
-        exts = sorted(set(v[0] for v in t.get("externs", {}).values()))
+        exts = sorted(set(v[0] for v in t.get("externs", {}).values()) | set(t.get("ext_params", [])))
         tys = "{ST : Type} " + " ".join("(%s : ST -> list N -> option (ST * list N))" % x for x in exts) + " " + tys
     sty = "(" + " * ".join(cty(ty) for _, ty in t["fields"]) + ")"
     rty = "list N" if isinstance(t.get("ret"), tuple) else (t["ret"] if isinstance(t.get("ret"), str) and t["ret"] not in BITS else ("N" if t.get("ret") else "unit"))
     fuel = "(fuel : nat) " if g.uses_fuel else ""
-    head = "Definition tr_%s %s%s %s: option %s :=\n  %s." % (t["name"], fuel, tys, "".join("(%s : %s) " % (a, "list N" if isinstance(argtys[a], tuple) else "N") for a in args), ("(%s)" % rty) if ro else "(%s * (%s))" % (sty, rty), text)
+    def aty(a):
+        if argtys[a] == "reader": return "rscript"
+        if argtys[a] == "writer": return "(list N * wscript)%type"
+        return "list N" if isinstance(argtys[a], tuple) else "N"
+    rann = "" if io else ": option %s " % (("(%s)" % rty) if ro else "(%s * (%s))" % (sty, rty))
+    head = "Definition tr_%s %s%s %s%s:=\n  %s." % (t["name"], fuel, tys, "".join("(%s : %s) " % (a, aty(a)) for a in args), rann, text)
     note = "(* %s fn %s(&mut self%s); fields %s; helpers inlined: %s *)" % (t["file"], t["fn"], "".join(", " + a for a in args), " ".join(fields), " ".join(helpers) or "-")
     return note + "\n" + head
 
@@ -361,7 +398,7 @@ def api(t, src):
 
 def main():
     out = ["(* GENERATED by tools/extract_steps.py from the Rust sources under /repo/src. Do not edit. *)",
-           "From Coq Require Import List NArith.", "From WS Require Import lib.Bytes lib.Res lib.Tape lib.StepLoop Consts model.Bigint model.Srp.", "From WS Require Import model.Key model.NormalizedString.", "Definition nstr_view : Type := (list N * N)%type.",
+           "From Coq Require Import List NArith.", "From WS Require Import lib.Bytes lib.Res lib.Tape lib.IoScript lib.StepLoop Consts model.Bigint model.Srp.", "From WS Require Import model.Key model.NormalizedString.", "Definition nstr_view : Type := (list N * N)%type.",
            "Definition res_view {A E} (r : res A E) : option (A + E) := match r with Ok a => Some (inl a) | Err e => Some (inr e) | Panic => None end.", "From WS Require model.Vanilla model.Tbc model.Wrath model.WorldProof.", "Import ListNotations.", "Local Open Scope N_scope.", ""]
     failed = []
     for t in TARGETS:
